@@ -310,6 +310,13 @@ class VersionsMachine(RuleBasedStateMachine):
         self.records = [tuple(r) for r in self.orig_records]
         self.snapshot = list(self.records)      # as of last reinit(known)
         self.sup_model = OrderedDict(self.orig_sup)   # mirrors the real dict
+        # contexts created BEFORE any extension (like the context of a
+        # long-lived Connection): they must compare correctly afterwards
+        kp0 = projection(self.orig_records)[2]
+        self.old_contexts = [
+            _ctxcls()(protocol_version=v)
+            for v in (kp0[0], kp0[len(kp0) // 2], kp0[-30], kp0[-3],
+                      kp0[-1])]
         self.fresh = 0
         self.hist = []
         self.nontail = False
@@ -459,6 +466,20 @@ class VersionsMachine(RuleBasedStateMachine):
                         ra < rb)
                 if got != want:
                     ctx.fail('machine', 'O5-order-after-extension',
+                             dict(case, a=a, b=b), got, want)
+        # contexts that existed before the extension
+        for cx in self.old_contexts:
+            a = cx.protocol_version
+            if a not in idx:
+                continue
+            for b in sample:
+                ra, rb = idx[a], idx[b]
+                got = (cx.protocol_earlier(b), cx.protocol_earlier_eq(b),
+                       cx.protocol_later(b), cx.protocol_later_eq(b),
+                       cx.protocol_in_range(b, a), cx.protocol_in_range(a, b))
+                want = (ra < rb, ra <= rb, ra > rb, ra >= rb, False, ra < rb)
+                if got != want:
+                    ctx.fail('machine', 'O5-old-context-after-extension',
                              dict(case, a=a, b=b), got, want)
         # O5: Connection accepts newly supported, refuses unsupported
         if after_known:
